@@ -41,6 +41,12 @@ def num_exprs():
     for (k1, t1), (k2, t2) in itertools.product(CONV_N.items(), repeat=2):
         yield ("pair", k1 + "+" + k2), inst(t1, n="X") + " + " + inst(t2, n="Y")
     yield ("pair3", "JOYSTK"), "JOYSTK ( 0 ) * 100 + JOYSTK ( 1 ) * 10 + JOYSTK ( 0 )"
+    # functions of several operands whose operands are calls themselves - directly and below an operator / built-in - with
+    # and without one more call after them: every temporary must still hold its value when it is read
+    for a, b, tail in itertools.product(("JOYSTK ( 0 )", "1 + JOYSTK ( 0 )"), ("JOYSTK ( 1 )", "3 + JOYSTK ( 1 )"), ("", " + BUTTON ( 0 )", " + INT ( V )")):
+        yield ("multi", "POINT"), f"POINT ( {a} , {b} ){tail}"
+    for a, s1, s2, tail in itertools.product(("INT ( X )", "1 + INT ( X )"), ("STR$ ( Y )", "LEFT$ ( STR$ ( Y ) , 2 )"), ("HEX$ ( W )", "RIGHT$ ( STR$ ( W ) , 1 )"), ("", " + INT ( V )")):
+        yield ("multi", "INSTR"), f"INSTR ( {a} , {s1} , {s2} ){tail}"
 
 
 def str_exprs():
@@ -56,6 +62,8 @@ def str_exprs():
                 yield (oc + ":" + ko, ki), inst(to, s=inst(ti))
     for (k1, t1), (k2, t2) in itertools.product(CONV_S.items(), repeat=2):
         yield ("pair", k1 + "+" + k2), inst(t1) + " + " + inst(t2, n="Y")
+    for a, sx, tail in itertools.product(("INT ( X )", "1 + INT ( X )"), ("STR$ ( Y )", "LEFT$ ( STR$ ( Y ) , 1 )"), ("", " + STR$ ( V )", " + INKEY$")):
+        yield ("multi", "STRING$"), f"STRING$ ( {a} , {sx} ){tail}"
 
 
 CTX_N = {
@@ -81,6 +89,11 @@ CTX_N = {
     # PRINT items that start with a sign or NOT, alone and after another item
     "print-neg": "10 PRINT - {e}", "print-neg-second": "10 PRINT Y ; - {e}", "print-not": "10 PRINT NOT {e}", "print@-neg": "10 PRINT @ 5 , - {e}",
     "assign-neg": "10 Z = - {e}",
+    # every operand of the ellipse and arc forms of HCIRCLE (statement objects that wrap another statement object)
+    "ellipse-x": "10 HCIRCLE ( {e} , 2 ) , 3 , 4 , 5", "ellipse-r": "10 HCIRCLE ( 1 , 2 ) , {e} , 4 , 5", "ellipse-c": "10 HCIRCLE ( 1 , 2 ) , 3 , {e} , 5",
+    "ellipse-ratio": "10 HCIRCLE ( 1 , 2 ) , 3 , 4 , {e}", "ellipse-no-colour": "10 HCIRCLE ( 1 , {e} ) , 3 , , 5",
+    "arc-y": "10 HCIRCLE ( 1 , {e} ) , 3 , 4 , 5 , 6 , 7", "arc-r": "10 HCIRCLE ( 1 , 2 ) , {e} , 4 , 5 , 6 , 7", "arc-ratio": "10 HCIRCLE ( 1 , 2 ) , 3 , 4 , {e} , 6 , 7",
+    "arc-start": "10 HCIRCLE ( 1 , 2 ) , 3 , 4 , 5 , {e} , 7", "arc-end": "10 HCIRCLE ( 1 , 2 ) , 3 , , 5 , 6 , {e}", "arc-all": "10 HCIRCLE ( {e} , {e} ) , {e} , 4 , 5 , 6 , 7",
 }
 CTX_S = {"assign-self": "10 X$ = {e}", "assign": "10 Z$ = {e}", "if": '10 IF {e} = "A" THEN 20\n20 END', "ifelse": '10 IF {e} = "A" THEN Z = 1 ELSE Z = 2', "print": "10 PRINT {e}",
          "play": "10 PLAY {e}", "hprint": "10 HPRINT ( 1 , 2 ) , {e}", "hdraw": "10 HDRAW {e}", "sassign-sub": "10 R$ ( JOYSTK ( 0 ) ) = {e}",
@@ -102,9 +115,15 @@ def jobs_for(tier):
     for (cname, c), (ekey, e) in itertools.product(nctx.items(), list(num_exprs())):
         if tier == "quick" and ekey[0] == "pair" and cname not in ("assign", "assign-sub", "print", "if", "sound"):
             continue
+        if ekey[0] == "multi" and cname not in ("assign", "print", "if", "sound", "assign-sub", "poke-value", "arc-all"):
+            continue
+        if tier == "quick" and (cname.startswith("ellipse") or cname.startswith("arc")) and ekey[0] not in ("top", "multi") and cname not in ("ellipse-x", "arc-start"):
+            continue
         jobs.append((cname, ekey, c.replace("{e}", e)))
     for (cname, c), (ekey, e) in itertools.product(CTX_S.items(), list(str_exprs())):
         if tier == "quick" and ekey[0] == "pair" and cname not in ("assign", "print"):
+            continue
+        if ekey[0] == "multi" and cname not in ("assign", "print", "if"):
             continue
         jobs.append(("s:" + cname, ekey, c.replace("{e}", e)))
     return jobs
